@@ -316,7 +316,9 @@ def render_package(spec, pkgname, modpath, other_pkg=None):
     if set1 or set2:
         items = [item_expr(k) for k in set1] + (['Set2'] if set2 else [])
         wf.append('var Set1 = wire.NewSet(%s)\n' % ', '.join(items))
-    build_items = [item_expr(k) for k in direct] + (['Set1'] if (set1 or set2) else [])
+    build_items = [item_expr(k) for k in direct if k != getattr(spec, 'omit', None)] + (['Set1'] if (set1 or set2) else [])
+    if getattr(spec, 'dup', None) is not None:
+        build_items.append('wire.NewSet(%s)' % item_expr(spec.dup))
     if spec.order is not None:
         build_items = [build_items[i % len(build_items)] for i in spec.order] if build_items else build_items
     args = [(k, n) for k, n in enumerate(nodes) if n.kind == ARG]
@@ -956,4 +958,123 @@ def family_frontend():
                          '\tvrt.Reset()\n\t_ = Inject()\n\tvrt.Cover("zoo-checked")\n}\n'),
     }
     specs.append(RawSpec(files2, 'copied declarations whose locals collide with each other after renaming (same scope)', family='frontend', extra_pkgs=extra, compile_props=['C01', 'C15', 'C14']))
+    return specs
+
+
+def family_random(seed=0, count=60):
+    """F9: seeded random well-formed programs mixing every node kind: function providers (value / pointer results,
+    multi-component results, error / cleanup flags), struct providers consumed in value and pointer form with
+    unselected and prevented fields, values, interface values, bindings to function / argument / value / field
+    sources, fields of multi-component sources in value and pointer form, injector arguments; every node needed."""
+    rnd = random.Random(1000 + seed)
+    specs = []
+    attempts = 0
+    while len(specs) < count and attempts < count * 30:
+        attempts += 1
+        n = rnd.randint(3, 7)
+        nodes = [None] * n
+        # build from the leaves (high indices) towards the result (index 0): node i may consume nodes j > i
+        consumers = {}   # node -> number of consumers (every node except 0 needs at least one)
+        forms = {}       # node -> list of forms it can be consumed in
+        ok = True
+        for i in range(n - 1, -1, -1):
+            avail = list(range(i + 1, n))
+            leafish = [VALUE, ARG, FUNC, IVALUE]
+            kinds = [FUNC, FUNC, FUNC, WSTRUCT, FIELD, BIND, VALUE, ARG, IVALUE] if avail else leafish
+            if i == 0:
+                kinds = [FUNC, FUNC, WSTRUCT, FIELD, BIND] if avail else [FUNC]
+            kind = rnd.choice(kinds)
+            if kind == FUNC:
+                k = rnd.randint(0, min(3, len(avail))) if avail else 0
+                if i == 0 and avail:
+                    k = max(k, 1)
+                deps = []
+                for j in rnd.sample(avail, k):
+                    deps.append((j, rnd.choice(forms[j])))
+                he, hc = rnd.choice(FLAGS)
+                ncomp = rnd.choice([1, 1, 1, 2, 3])
+                nodes[i] = Node(FUNC, deps=deps, has_err=he, has_cleanup=hc, ptr=rnd.random() < 0.3, ncomp=ncomp)
+                forms[i] = ['ptr'] if nodes[i].ptr else ['val']
+            elif kind == WSTRUCT:
+                k = rnd.randint(1, min(3, len(avail)))
+                deps = [(j, rnd.choice(forms[j])) for j in rnd.sample(avail, k)]
+                star = rnd.random() < 0.4
+                nodes[i] = Node(WSTRUCT, deps=deps, star=star, extra_fields=0 if star else rnd.randint(0, 1), prevented=rnd.randint(0, 1))
+                forms[i] = ['val', 'ptr']
+            elif kind == FIELD:
+                cands = [j for j in avail if nodes[j].kind in (FUNC, ARG, VALUE) and nodes[j].ncomp >= 2]
+                if not cands:
+                    ok = False
+                    break
+                par = rnd.choice(cands)
+                nodes[i] = Node(FIELD, parent=par, fieldno=rnd.randrange(nodes[par].ncomp))
+                forms[i] = ['val', 'ptr'] if nodes[par].ptr else ['val']
+                # one field provider per (parent, field)
+                if any(nodes[j] is not None and nodes[j].kind == FIELD and nodes[j].parent == par and nodes[j].fieldno == nodes[i].fieldno for j in avail):
+                    ok = False
+                    break
+            elif kind == BIND:
+                cands = [j for j in avail if nodes[j].kind in (FUNC, ARG, VALUE) and nodes[j].ncomp == 1 and not any(nodes[q] is not None and nodes[q].kind == BIND and nodes[q].target == j for q in avail)]
+                if not cands:
+                    ok = False
+                    break
+                tgt = rnd.choice(cands)
+                nodes[i] = Node(BIND, target=tgt)
+                forms[i] = ['val']
+            elif kind == VALUE:
+                nodes[i] = Node(VALUE, ptr=rnd.random() < 0.3, ncomp=rnd.choice([1, 1, 2, 3]))
+                forms[i] = ['ptr'] if nodes[i].ptr else ['val']
+            elif kind == ARG:
+                nodes[i] = Node(ARG, ptr=rnd.random() < 0.3, ncomp=rnd.choice([1, 1, 2, 3]))
+                forms[i] = ['ptr'] if nodes[i].ptr else ['val']
+            else:
+                nodes[i] = Node(IVALUE)
+                forms[i] = ['val']
+        if not ok:
+            continue
+        result_form = rnd.choice(forms[0])
+        sp = Spec(nodes, (0, result_form), label='random seed=%d #%d kinds=%s' % (seed, len(specs), ''.join(nd.kind[0] for nd in nodes)), family='random')
+        if sp.needed() != set(range(n)):
+            continue
+        # a field consumed in pointer form needs a pointer parent; a multi-component value cannot be a binding target (checked above)
+        # two sources must not provide the same type: a multi-component source and a field of it provide different types: fine
+        specs.append(sp)
+    return specs
+
+
+def family_random_reject(seed=0, count=45):
+    """F10: every program of the random family turned ill-formed in one way: a needed source removed (C06), a source
+    supplied twice through an extra inline set (C05), or a superfluous provider added (C08)."""
+    base = family_random(seed + 77, count)
+    rnd = random.Random(2000 + seed)
+    specs = []
+    for sp in base:
+        how = rnd.choice(['omit', 'dup', 'unused'])
+        cands = [k for k, n in enumerate(sp.nodes) if n.kind != ARG]
+        if how == 'omit':
+            if not cands:
+                continue
+            sp.omit = rnd.choice(cands)
+            # dropping a binding's or field's item makes the interface / field type missing; all are "needed type without source"
+            sp.reject_props = ['C06']
+            if sp.nodes[sp.omit].kind in (FUNC, VALUE, WSTRUCT):
+                sp.diag_must_contain = Namer(sp).tname(sp.omit)
+            sp.label += ' MINUS the source of node %d' % sp.omit
+        elif how == 'dup':
+            cands = [k for k in cands if sp.nodes[k].kind in (FUNC, VALUE, WSTRUCT, IVALUE)]
+            if not cands:
+                continue
+            sp.dup = rnd.choice(cands)
+            sp.reject_props = ['C05']
+            if sp.nodes[sp.dup].kind in (FUNC, VALUE, WSTRUCT):
+                sp.diag_must_contain = Namer(sp).tname(sp.dup)
+            sp.label += ' PLUS node %d a second time through an inline set' % sp.dup
+        else:
+            sp.nodes.append(Node(FUNC, has_cleanup=rnd.random() < 0.5))
+            sp.reject_props = ['C08']
+            sp.diag_must_contain = 'NewT%d' % (len(sp.nodes) - 1)
+            sp.label += ' PLUS a provider nobody needs'
+        sp.expect = 'reject'
+        sp.family = 'random_reject'
+        specs.append(sp)
     return specs
